@@ -16,9 +16,27 @@ RULE = ("every multiset of 1..N SRV records over priorities {0,1,2} × weights {
 ASSUMPTIONS = ["sorted() is stable", "the SRV prefix and the '.' join are ASCII"]
 
 
+class Name:
+    """stands for dns.name.Name: str() / to_text() give the presentation form (absolute names end in '.')"""
+    def __init__(self, text):
+        self.text = text
+
+    def __str__(self):
+        return self.text
+
+    def to_text(self, omit_final_dot=False):
+        return self.text[:-1] if omit_final_dot and self.text.endswith(".") else self.text
+
+    def __eq__(self, other):
+        return str(self) == str(other)
+
+    def __hash__(self):
+        return hash(self.text)
+
+
 class Rec:
     def __init__(self, target, port, weight, priority):
-        self.target, self.port, self.weight, self.priority = target, port, weight, priority
+        self.target, self.port, self.weight, self.priority = Name(target), port, weight, priority
 
 
 class FakeDns:
